@@ -208,7 +208,9 @@ class StructLeaf(AxArr):
     (eval_shape), and compares by shape like a ShapeDtypeStruct."""
 
     def __eq__(self, other: Any) -> bool:
-        return isinstance(other, AxArr) and other.shape == self.shape
+        if not (isinstance(other, AxArr) and other.shape == self.shape):
+            return False
+        return self.dtype is None or other.dtype is None or str(self.dtype) == str(other.dtype)
 
     def __ne__(self, other: Any) -> bool:
         return not self.__eq__(other)
@@ -973,6 +975,8 @@ class Interp:
 
     def class_attr(self, cls: ClassInfo, name: str, obj: Obj | None) -> Any:
         r = self.table.resolve(cls, name)
+        if r is None and obj is None and name in ('in_structure', 'out_structure', 'mv', 'as_matrix', 'transpose') and any(b.endswith('AbstractLinearOperator') for k in cls.mro for b in k.external_bases):
+            return lambda *a_, **k_: None  # an abstract method of lineax.AbstractLinearOperator called unbound: its body is empty
         if r is None:
             value = self._class_level_value(cls, name)
             if value is not None:
